@@ -23,13 +23,31 @@ const (
 	kStructSlice = "structslice" // []struct
 	kStructMap   = "structmap"   // map[string]struct
 	kEmbed       = "embed"       // embedded (anonymous) struct
+	// nested sequences
+	kIntSlice2    = "intslice2"    // [][]int
+	kStrSlice2    = "strslice2"    // [][]string
+	kMapSlice2    = "mapslice2"    // [][]map[string]int
+	kStructSlice2 = "structslice2" // [][]struct
+	kDeep         = "deep"         // []map[string][]struct (list -> map -> list -> struct)
 )
+
+var nestedSimpleKinds = []string{kIntSlice2, kStrSlice2, kMapSlice2}
+var nestedCompositeKinds = []string{kStructSlice2, kDeep}
+
+// isScalarKind: kinds whose documents values are single scalars.
+func isScalarKind(k string) bool {
+	switch k {
+	case kInt, kInt64, kUint8, kFloat64, kString, kBool, kPtrInt:
+		return true
+	}
+	return false
+}
 
 var simpleKinds = []string{kInt, kInt64, kUint8, kFloat64, kString, kBool, kPtrInt, kStrSlice, kIntMap}
 var compositeKinds = []string{kStruct, kStructSlice, kStructMap, kEmbed}
 
 func isComposite(k string) bool {
-	return k == kStruct || k == kStructSlice || k == kStructMap || k == kEmbed
+	return k == kStruct || k == kStructSlice || k == kStructMap || k == kEmbed || k == kStructSlice2 || k == kDeep
 }
 
 // FieldSpec describes one struct field; StructSpec one struct type (built with reflect.StructOf).
@@ -100,6 +118,12 @@ func simpleType(kind string) reflect.Type {
 		return reflect.SliceOf(stringT)
 	case kIntMap:
 		return reflect.MapOf(stringT, intT)
+	case kIntSlice2:
+		return reflect.SliceOf(reflect.SliceOf(intT))
+	case kStrSlice2:
+		return reflect.SliceOf(reflect.SliceOf(stringT))
+	case kMapSlice2:
+		return reflect.SliceOf(reflect.SliceOf(reflect.MapOf(stringT, intT)))
 	}
 	panic("unknown kind " + kind)
 }
@@ -141,6 +165,10 @@ func (s *StructSpec) Type() reflect.Type {
 			sf.Type = reflect.SliceOf(f.Inner.Type())
 		case kStructMap:
 			sf.Type = reflect.MapOf(stringT, f.Inner.Type())
+		case kStructSlice2:
+			sf.Type = reflect.SliceOf(reflect.SliceOf(f.Inner.Type()))
+		case kDeep:
+			sf.Type = reflect.SliceOf(reflect.MapOf(stringT, reflect.SliceOf(f.Inner.Type())))
 		case kEmbed:
 			sf.Type = f.Inner.Type()
 			sf.Anonymous = true
@@ -259,6 +287,13 @@ func pool(slot int, fam string) []FieldSpec {
 			}
 		}
 	}
+	// nested sequences: plain option only (their option handling is that of any slice field)
+	for _, k := range nestedSimpleKinds {
+		out = append(out, FieldSpec{Go: sl.goName, Tag: sl.tag, Kind: k})
+	}
+	for _, k := range nestedCompositeKinds {
+		out = append(out, FieldSpec{Go: sl.goName, Tag: sl.tag, Kind: k, Inner: innerVariantsSmall(sl, fam)[0]})
+	}
 	return out
 }
 
@@ -298,6 +333,25 @@ func enumerateTypes(fam string, thorough bool) []typeItem {
 				for _, tag := range tags {
 					out = append(out, typeItem{fam, "L1c", &StructSpec{Fields: []FieldSpec{{Go: sl.goName, Tag: tag, Kind: k, Opt: o, Inner: in}}}, modeFull})
 				}
+			}
+		}
+	}
+	// nested sequences: [][]int, [][]string, [][]map[string]int (L1s) and [][]struct,
+	// []map[string][]struct (L1c) around every inner variant
+	for _, k := range nestedSimpleKinds {
+		for _, tag := range []string{sl.tag, ""} {
+			for _, o := range optsFor(k, fam) {
+				out = append(out, typeItem{fam, "L1s", &StructSpec{Fields: []FieldSpec{{Go: sl.goName, Tag: tag, Kind: k, Opt: o}}}, modeFull})
+			}
+		}
+	}
+	for _, k := range nestedCompositeKinds {
+		for _, in := range innerVariantsFull(sl, fam) {
+			out = append(out, typeItem{fam, "L1c", &StructSpec{Fields: []FieldSpec{{Go: sl.goName, Tag: sl.tag, Kind: k, Inner: in}}}, modeFull})
+		}
+		if fam == "A" {
+			for _, in := range innerVariantsSmall(sl, fam) {
+				out = append(out, typeItem{fam, "L1c", &StructSpec{Fields: []FieldSpec{{Go: sl.goName, Kind: k, Opt: "optional", Inner: in}}}, modeFull})
 			}
 		}
 	}
@@ -342,8 +396,35 @@ func validValue(kind string) *Node {
 		return arr(str("x"), str("7"))
 	case kIntMap:
 		return obj(kv("k", num("7")))
+	case kIntSlice2:
+		return arr(arr(num("7")))
+	case kStrSlice2:
+		return arr(arr(str("x")))
+	case kMapSlice2:
+		return arr(arr(obj(kv("k", num("7")))))
 	}
 	panic(kind)
+}
+
+// nestedValues: the kind-specific values of the nested-sequence kinds: inner lists of 0, 1 and
+// 2 elements in every position, boundary / wrong-kind elements.
+func nestedValues(kind string) []*Node {
+	m7, m0 := obj(kv("k", num("7"))), obj(kv("K", num("0")))
+	switch kind {
+	case kIntSlice2:
+		return []*Node{arr(arr()), arr(arr(num("7"), num("0"))), arr(arr(num("7")), arr(num("0"), num("-1"))),
+			arr(arr(), arr(num("7"))), arr(arr(num("7")), arr()), arr(arr(), arr()), arr(arr(num("1.0"))), arr(arr(num("2147483648"))),
+			arr(arr(num("7")), num("7")), arr(arr(str("x"))), arr(arr(arr(num("7")))), arr(arr(null())), arr(arr(num("7")), null())}
+	case kStrSlice2:
+		return []*Node{arr(arr()), arr(arr(str("x"), str("7"))), arr(arr(str("x")), arr(str(""), str("7"))),
+			arr(arr(), arr(str("x"))), arr(arr(str("x")), arr()), arr(arr(), arr()), arr(arr(num("7"))), arr(arr(num("1.0"))),
+			arr(arr(str("x")), str("x")), arr(arr(obj())), arr(arr(null())), arr(arr(str("x")), null())}
+	case kMapSlice2:
+		return []*Node{arr(arr()), arr(arr(m7, m0)), arr(arr(m7), arr(obj(), obj(kv("k2", num("-1"))))),
+			arr(arr(), arr(m7)), arr(arr(m7), arr()), arr(arr(obj())), arr(arr(obj(kv("k", num("1.0"))))), arr(arr(obj(kv("k", str("x"))))),
+			arr(arr(num("7"))), arr(m7), arr(arr(m7), m7), arr(arr(null())), arr(arr(obj(kv("k", null()))))}
+	}
+	return nil
 }
 
 var thoroughAtoms bool
@@ -355,7 +436,7 @@ func atomsOf(extended bool) []*Node {
 	a := []*Node{
 		num("7"), nil, num("0"), num("-1"), num("2147483648"), num("1.5"), num("1.0"), num("1e3"),
 		str("x"), str(""), str("7"), boolean(true), boolean(false), null(),
-		arr(), arr(str("x"), str("7")), arr(num("7")), arr(null()), arr(str("x"), null()), arr(null(), str("x")), arr(num("1.0")),
+		arr(), arr(str("x"), str("7")), arr(num("7")), arr(null()), arr(str("x"), null()), arr(null(), str("x")), arr(num("1.0")), arr(arr(num("7"))),
 		obj(), obj(kv("k", num("7"))), obj(kv("K", num("7")), kv("k2", num("-1"))), obj(kv("k", str("x"))),
 		obj(kv("k", num("1.0"))), obj(kv("k", null())),
 	}
@@ -385,6 +466,12 @@ func reducedValues(kind string) []*Node {
 		return []*Node{arr(str("x"), str("7")), nil, num("7"), null(), arr(), arr(null())}
 	case kIntMap:
 		return []*Node{obj(kv("k", num("7"))), nil, num("7"), null(), obj(), obj(kv("K", num("1.0")))}
+	case kIntSlice2:
+		return []*Node{arr(arr(num("7"))), nil, arr(num("7")), arr(arr(), arr(num("7"), num("0"))), arr(arr(num("1.0")))}
+	case kStrSlice2:
+		return []*Node{arr(arr(str("x"))), nil, arr(str("x")), arr(arr(), arr(str("x"), str("7"))), arr(arr(num("1.0")))}
+	case kMapSlice2:
+		return []*Node{arr(arr(obj(kv("k", num("7"))))), nil, arr(obj(kv("k", num("7")))), arr(arr(), arr(obj(kv("K", num("0"))), obj())), arr(arr(obj(kv("k", num("1.0")))))}
 	}
 	panic(kind)
 }
@@ -394,13 +481,16 @@ func tinyValues(kind string) []*Node {
 	case kInt, kInt64, kUint8, kPtrInt:
 		return []*Node{num("7"), nil, num("1.0")}
 	case kString:
-		return []*Node{str("x"), nil, null()}
+		return []*Node{str("x"), nil, num("7")}
 	case kFloat64:
-		return []*Node{num("1.5"), nil, null()}
+		return []*Node{num("1.5"), nil, str("x")}
 	case kStrSlice:
-		return []*Node{arr(str("x"), str("7")), nil, arr(null())}
+		return []*Node{arr(str("x"), str("7")), nil, arr(num("1.0"))}
 	}
-	return []*Node{validValue(kind), nil, null()}
+	if nv := reducedValues; kind == kIntSlice2 || kind == kStrSlice2 || kind == kMapSlice2 {
+		return nv(kind)[:3]
+	}
+	return []*Node{validValue(kind), nil, num("-1")}
 }
 
 func dedupe(vs []*Node) []*Node {
@@ -425,7 +515,7 @@ func fieldValues(f FieldSpec, mode int) []*Node {
 	if !isComposite(f.Kind) {
 		switch mode {
 		case modeFull:
-			return dedupe(append([]*Node{validValue(f.Kind)}, atoms()...))
+			return dedupe(append(append([]*Node{validValue(f.Kind)}, atoms()...), nestedValues(f.Kind)...))
 		case modeFullBase:
 			return dedupe(append([]*Node{validValue(f.Kind)}, atomsOf(false)...))
 		case modeReduced:
@@ -476,14 +566,41 @@ func fieldValues(f FieldSpec, mode int) []*Node {
 			out = append(out, obj(kv("K1", inner[0]), kv("k2", inner[len(inner)-1])))
 		}
 		out = append(out, obj(), obj(kv("k", null())), obj(kv("k", num("7"))))
+	case kStructSlice2:
+		last := inner[len(inner)-1]
+		out = append(out, arr(arr(inner[0])), nil)
+		for _, d := range inner[1:] {
+			out = append(out, arr(arr(d)))
+		}
+		if mode == modeFull {
+			for _, d := range inner {
+				out = append(out, arr(arr(inner[0], d)), arr(arr(inner[0]), arr(d)))
+			}
+		}
+		out = append(out, arr(arr(inner[0], last)), arr(arr(inner[0]), arr(last, inner[0])), arr(arr(), arr(inner[0])), arr(arr(inner[0]), arr()),
+			arr(arr()), arr(), arr(inner[0]), arr(arr(num("7"))), arr(arr(inner[0]), num("7")), arr(arr(null())), arr(arr(inner[0]), null()))
+	case kDeep:
+		last := inner[len(inner)-1]
+		wrap := func(ds ...*Node) *Node { return arr(obj(kv("k", arr(ds...)))) }
+		out = append(out, wrap(inner[0]), nil)
+		for _, d := range inner[1:] {
+			out = append(out, wrap(d))
+		}
+		if mode == modeFull {
+			for _, d := range inner {
+				out = append(out, wrap(inner[0], d), arr(obj(kv("K1", arr(inner[0])), kv("k2", arr(d)))), arr(obj(kv("k", arr(inner[0]))), obj(kv("k", arr(d)))))
+			}
+		}
+		out = append(out, wrap(inner[0], last), arr(obj(kv("K1", arr(inner[0])), kv("k2", arr(last, inner[0])))), arr(obj(kv("k", arr(inner[0]))), obj(kv("k", arr()))),
+			wrap(), arr(obj()), arr(), arr(obj(kv("k", inner[0]))), arr(arr(inner[0])), arr(obj(kv("k", arr(num("7"))))), arr(obj(kv("k", num("7")))),
+			arr(obj(kv("k", null()))), arr(obj(kv("k", arr(null())))))
 	}
 	// wrong-kind values for the composite itself
 	if mode == modeFull {
 		out = append(out, num("7"), str("x"), boolean(true), null())
-		if f.Kind != kStructSlice {
+		if f.Kind == kStruct || f.Kind == kStructMap {
 			out = append(out, arr())
-		}
-		if f.Kind == kStructSlice {
+		} else {
 			out = append(out, obj())
 		}
 	} else {
